@@ -35,7 +35,7 @@ vars == <<p>>
 
 EmptyG(kind, par, pnode) ==
   [kind |-> kind, par |-> par, pnode |-> pnode, ins |-> <<>>, inits |-> <<>>, nodes |-> <<>>, outs |-> <<>>,
-   vinfo |-> {}, quant |-> {}, untyped |-> {}]
+   vinfo |-> {}, quant |-> {}, untyped |-> {}, doconly |-> {}]
 
 \* ---- implicit -> explicit ------------------------------------------------------------------------
 GK(g) == "g" \o ToString(g)
@@ -44,8 +44,11 @@ IK(g, j) == GK(g) \o ".i" \o ToString(j)
 NK(g, k) == GK(g) \o ".n" \o ToString(k)
 Tok(key, kind) == key \o "." \o kind
 
+\* doconly: an entry without a type that still carries a doc string and metadata (legal for the inputs and outputs
+\* of a control-flow body, whose types the enclosing node implies)
 InfoOf(pg, g, nm) ==
   IF nm \in pg.untyped THEN NoInfo
+  ELSE IF nm \in pg.doconly THEN [NoInfo EXCEPT !.doc = B1(Tok(VK(g, nm), "doc")), !.meta = B1(Tok(VK(g, nm), "meta"))]
   ELSE [ty |-> B1(Tok(VK(g, nm), "ty")), sh |-> B1(Tok(VK(g, nm), "sh")),
         doc |-> B1(Tok(VK(g, nm), "doc")), meta |-> B1(Tok(VK(g, nm), "meta"))]
 TensOf(g, j) == [key |-> IK(g, j), t |-> B1(Tok(IK(g, j), "t")), doc |-> B1(Tok(IK(g, j), "tdoc")), meta |-> B1(Tok(IK(g, j), "tmeta"))]
@@ -83,7 +86,7 @@ Explicit(q) ==
 SumSeq(q) == FoldLeft(LAMBDA a, b : a + b, 0, q)
 NodesIn(q) == SumSeq([g \in 1..Len(q.gs) |-> Len(q.gs[g].nodes)])
 SlotsG(pg) == Len(pg.ins) + Len(pg.inits) + Len(pg.outs) + Cardinality(pg.vinfo) + Cardinality(pg.quant)
-              + Cardinality(pg.untyped)
+              + Cardinality(pg.untyped) + Cardinality(pg.doconly)
               + SumSeq([k \in DOMAIN pg.nodes |-> Len(pg.nodes[k].ins) + Len(pg.nodes[k].outs)])
 Slots(q) == SumSeq([g \in 1..Len(q.gs) |-> SlotsG(q.gs[g])])
 RECURSIVE DepthOf(_, _)
@@ -124,12 +127,17 @@ BAddNIn(g, k, nm)  == Room /\ Len(p.gs[g].nodes[k].ins) < MaxNodeIO
                      /\ p' = [p EXCEPT !.gs[g].nodes[k].ins = Append(@, nm)]
 BAddNOut(g, k, nm) == Room /\ Len(p.gs[g].nodes[k].outs) < MaxNodeIO
                      /\ p' = [p EXCEPT !.gs[g].nodes[k].outs = Append(@, nm)]
-AnnRoom(g) == Cardinality(p.gs[g].vinfo) + Cardinality(p.gs[g].quant) + Cardinality(p.gs[g].untyped) < MaxAnn
+AnnRoom(g) == Cardinality(p.gs[g].vinfo) + Cardinality(p.gs[g].quant) + Cardinality(p.gs[g].untyped)
+              + Cardinality(p.gs[g].doconly) < MaxAnn
 BAddVI(g, nm)   == Room /\ AnnRoom(g) /\ nm \notin p.gs[g].vinfo /\ Upd(g, "vinfo", p.gs[g].vinfo \cup {nm})
 BAddQ(g, nm)    == Room /\ AnnRoom(g) /\ p.gs[g].kind # "func" /\ nm \notin p.gs[g].quant /\ Upd(g, "quant", p.gs[g].quant \cup {nm})
-BAddUntyped(g, nm) == Mode = "any" /\ Room /\ AnnRoom(g) /\ nm \notin p.gs[g].untyped
+BAddUntyped(g, nm) == Mode = "any" /\ Room /\ AnnRoom(g) /\ nm \notin p.gs[g].untyped \cup p.gs[g].doconly
                      /\ nm \in RangeS(p.gs[g].ins) \cup RangeS(p.gs[g].outs) \cup p.gs[g].vinfo
                      /\ Upd(g, "untyped", p.gs[g].untyped \cup {nm})
+BAddDocOnly(g, nm) == Room /\ AnnRoom(g) /\ p.gs[g].kind = "sub" /\ nm \notin p.gs[g].doconly \cup p.gs[g].untyped
+                     /\ nm \in RangeS(p.gs[g].ins) \cup RangeS(p.gs[g].outs)
+                     /\ (Mode = "any" \/ nm \notin RangeS(p.gs[g].inits))
+                     /\ Upd(g, "doconly", p.gs[g].doconly \cup {nm})
 \* graphs are numbered in non-decreasing (parent, node) order: one flat numbering per tree
 BAddSub(g, k)   == /\ Len(p.gs) < MaxGraphs /\ DepthOf(p, g) < MaxDepth /\ (WithFunc = "only" \/ ~HasFunc(p))
                   /\ LET last == p.gs[Len(p.gs)] IN
@@ -145,7 +153,7 @@ Next ==
        \/ \E k \in DOMAIN p.gs[g].nodes :
             \/ \E nm \in {x \in NodeNames : Fresh(x)} : BAddNIn(g, k, nm) \/ BAddNOut(g, k, nm)
             \/ BAddSub(g, k)
-       \/ \E nm \in {x \in Names : Fresh(x)} : BAddVI(g, nm) \/ BAddQ(g, nm) \/ BAddUntyped(g, nm)
+       \/ \E nm \in {x \in Names : Fresh(x)} : BAddVI(g, nm) \/ BAddQ(g, nm) \/ BAddUntyped(g, nm) \/ BAddDocOnly(g, nm)
   \/ BAddFunc
 
 Spec == Init /\ [][Next]_vars
